@@ -216,6 +216,16 @@ def rule_tls(expected):
             failing.append(site + " (file missing)")
             continue
         sites.append(site)
+        if "." in name:  # Class.attr : instance attribute created in __init__
+            cname, attr = name.split(".")
+            t = ast.parse(open(os.path.join(REPO, f)).read())
+            c = find_class(t, cname)
+            init = [q for q in (c.body if c else []) if isinstance(q, ast.FunctionDef) and q.name == "__init__"]
+            okc = init and any(isinstance(n, ast.Assign) and ast.unparse(n.targets[0]) == f"self.{attr}" and ast.unparse(n.value) == "threading.local()" for n in ast.walk(init[0]))
+            others = [n for n in ast.walk(c) if isinstance(n, ast.Assign) and ast.unparse(n.targets[0]) == f"self.{attr}"] if c else []
+            if not okc or len(others) != 1:
+                failing.append(site + " is not created exactly once as `threading.local()` in __init__")
+            continue
         if inv.get((f, name)) != "thread-local":
             # subclass of threading.local with class-level mutable attribute would share state: require the plain constructor
             failing.append(site + f" is {inv.get((f, name), 'not a module-level binding')}, expected `threading.local()`")
